@@ -413,6 +413,6 @@ func c15SyncPart(name string, mk func(thorough bool) *c15SyncCfg, tt *testing.T)
 
 func c15Sync(p protocol.Perspective, t int) func(bool) *c15SyncCfg {
 	return func(th bool) *c15SyncCfg {
-		return &c15SyncCfg{pers: p, t: t, callers: c15Pick(th, 3, 4), maxN: c15Pick(th, 3, 4), length: c15Pick(th, 7, 9)}
+		return &c15SyncCfg{pers: p, t: t, callers: c15Pick(th, 3, 4), maxN: c15Pick(th, 3, 4), length: c15Pick(th, 6, 8)}
 	}
 }
